@@ -116,6 +116,9 @@ def l2_configs(tier):
         pool=dict(enable_timeouts=True), depth=d + 1)
     cfg('2proc/cancel+terminate_job', 2, [ap, ap],
         alphabet=dict(terminate_job=True))
+    cfg('2proc/map-under-handshake', 2,
+        [ap, dict(kind='map', fn='tenfold', items=[1, 2], chunksize=1)],
+        alphabet=dict(cancel=False), depth=d - 2)
     return out
 
 
